@@ -80,48 +80,82 @@ def _add(a, b):
     return a + b
 
 
-def map_integrated(vals, sb, db, prev=None):
-    """Volume-integrated profile: dest_j = sum_i v_i * overlap_ij / h_i ; unset source cells give
-    nothing; a destination cell that overlaps no set source cell keeps its previous value."""
+DROP = 1e-10  # getBlocksBetweenElevations documents: overlaps below this fraction of a block are discarded
+DROP_MARGIN = 1e-6  # float noise around the threshold: either outcome is admissible there
+
+
+def droppable(o, h):
+    """An overlap the implementation may legitimately not see (thinner than 1e-10 of the source block)."""
+    return 0.0 < o <= DROP * h * (1.0 + DROP_MARGIN)
+
+
+def _amax(v):
+    if isinstance(v, (list, tuple)):
+        return max([abs(x) for x in v] or [0.0])
+    return abs(v)
+
+
+def _map(vals, sb, db, prev, integrated):
+    """-> per destination cell (value, slack, only_slivers).
+    value: every positive overlap counted; slack: summed magnitude of the contributions of
+    droppable overlaps (the implementation may or may not include each of them);
+    only_slivers: nothing but droppable overlaps carried a value (the previous value may survive)."""
     out = []
     for j in range(len(db) - 1):
         ov = overlaps(sb, db[j], db[j + 1])
-        acc = None
+        acc, slack, solid = None, 0.0, False
         for i, o in enumerate(ov):
             if o > 0.0 and vals[i] is not None:
-                acc = _add(acc, _mul(vals[i], o / (sb[i + 1] - sb[i])))
-        out.append(acc if acc is not None else (prev[j] if prev else None))
+                h = sb[i + 1] - sb[i]
+                f = o / h if integrated else o / (db[j + 1] - db[j])
+                acc = _add(acc, _mul(vals[i], f))
+                if droppable(o, h):
+                    slack += _amax(vals[i]) * f
+                else:
+                    solid = True
+        if acc is None:
+            out.append((prev[j] if prev else None, 0.0, False))
+        else:
+            out.append((acc, slack, not solid))
     return out
+
+
+def map_integrated(vals, sb, db, prev=None):
+    """Volume-integrated profile: dest_j = sum_i v_i * overlap_ij / h_i ; unset source cells give
+    nothing; a destination cell that overlaps no set source cell keeps its previous value."""
+    return _map(vals, sb, db, prev, True)
 
 
 def map_averaged(vals, sb, db, prev=None):
     """Averaged profile: dest_j = sum_i v_i * overlap_ij / H_j (height-weighted mean)."""
-    out = []
-    for j in range(len(db) - 1):
-        ov = overlaps(sb, db[j], db[j + 1])
-        acc = None
-        for i, o in enumerate(ov):
-            if o > 0.0 and vals[i] is not None:
-                acc = _add(acc, _mul(vals[i], o / (db[j + 1] - db[j])))
-        out.append(acc if acc is not None else (prev[j] if prev else None))
-    return out
+    return _map(vals, sb, db, prev, False)
 
 
-def map_peak(vals, sb, db, prev=None, substantial=1e-6):
+def map_peak(vals, sb, db, prev=None):
     """Peak profile: dest_j = max of the overlapped source values.  Returns (lo, hi) per cell:
-    ``hi`` counts every cell with positive overlap, ``lo`` only cells overlapped by more than
-    ``substantial`` of their height (an implementation may or may not see a 1e-9 sliver)."""
+    ``hi`` counts every cell with positive overlap, ``lo`` only cells whose overlap is not droppable."""
     out = []
     for j in range(len(db) - 1):
         ov = overlaps(sb, db[j], db[j + 1])
         hi = [vals[i] for i, o in enumerate(ov) if o > 0.0 and vals[i] is not None]
-        lo = [vals[i] for i, o in enumerate(ov) if o > substantial * (sb[i + 1] - sb[i]) and vals[i] is not None]
+        lo = [vals[i] for i, o in enumerate(ov) if o > 0.0 and not droppable(o, sb[i + 1] - sb[i]) and vals[i] is not None]
         if not hi:
             p = prev[j] if prev else None
             out.append((p, p))
         else:
             out.append((max(lo) if lo else None, max(hi)))
     return out
+
+
+def total_slack(vals, sb, db):
+    """Largest amount of an integrated total that droppable overlaps may take away."""
+    s = 0.0
+    for j in range(len(db) - 1):
+        for i, o in enumerate(overlaps(sb, db[j], db[j + 1])):
+            h = sb[i + 1] - sb[i]
+            if vals[i] is not None and droppable(o, h):
+                s += _amax(vals[i]) * o / h
+    return s
 
 
 # ---------------------------------------------------------------------------------------------
